@@ -121,6 +121,16 @@ func (s *Store) BeginTX(ctx context.Context, options *sql.TxOptions) (ledgercont
 	if err := s.enter(ctx, "BeginTX"); err != nil {
 		return nil, nil, err
 	}
+	if options != nil && options.Isolation != sql.LevelDefault && options.Isolation != sql.LevelReadCommitted {
+		// memstore models READ COMMITTED only (what the ledger runs at); a request for another
+		// level is recorded so that checks can report it instead of silently mis-modelling it
+		s.c.mu.Lock()
+		if s.c.isolationAsked == nil {
+			s.c.isolationAsked = map[string]int{}
+		}
+		s.c.isolationAsked[options.Isolation.String()]++
+		s.c.mu.Unlock()
+	}
 	cp := *s
 	switch {
 	case s.bunTx != nil:
